@@ -1,0 +1,6 @@
+//go:build !verif
+
+package schema
+
+// verification hook (build tag verif): no-op in normal builds.
+func verifYield(_ int) {}
